@@ -765,8 +765,7 @@ theorem split_perm (atoms : List Atom) (mx : Int) (sds : List SplitDef) (r : Spl
   unfold groupAtoms
   simpa using fold_appendAt_flat_perm (fun a : Atom => (a.resid, a.resname)) (·.key) (relabel atoms mapping mx) []
 
-/-- the flat view of the double loop of `_interpret_residue_mapping` -/
-def namedParts (sd : SplitDef) : List (String × String) := sd.parts.flatMap fun p => p.2.map fun n => (p.1, n)
+/-! the flat view of the double loop of `_interpret_residue_mapping` is `namedParts` (model file) -/
 
 def mapStep (atoms : List Atom) (sd : SplitDef) (acc : List (Nat × String) × List String) (pn : String × String) :
     Except String (List (Nat × String) × List String) :=
@@ -1065,6 +1064,424 @@ theorem detach_positions {π} (mols1 : List Mol) (pos : PosTable π)
   · intro k hk
     rw [lookup_filter_keys _ (fun k => decide (k ∉ (ligatedNodes mols1).map (·.1)))]
     simp [hk]
+
+/-! ### E'. `-split`: the new residues refine the old ones and carry the asked names -/
+
+section groupsound
+variable {κ α : Type} [DecidableEq κ]
+
+theorem mem_appendAt_val (t : List (κ × List α)) (k : κ) (v : α) (e : κ × List α) (he : e ∈ appendAt t k v)
+    (x : α) (hx : x ∈ e.2) : (∃ e0 ∈ t, e0.1 = e.1 ∧ x ∈ e0.2) ∨ (e.1 = k ∧ x = v) := by
+  induction t with
+  | nil =>
+    simp only [appendAt, List.mem_singleton] at he
+    subst he
+    simp only [List.mem_singleton] at hx
+    exact Or.inr ⟨rfl, hx⟩
+  | cons e0 rest ih =>
+    obtain ⟨k0, vs⟩ := e0
+    by_cases h : k0 = k
+    · simp only [appendAt, h, if_true, List.mem_cons] at he
+      rcases he with he | he
+      · subst he
+        rcases List.mem_append.mp hx with hx | hx
+        · exact Or.inl ⟨(k0, vs), List.mem_cons_self, h, hx⟩
+        · exact Or.inr ⟨rfl, List.mem_singleton.mp hx⟩
+      · exact Or.inl ⟨e, List.mem_cons_of_mem _ he, rfl, hx⟩
+    · simp only [appendAt, h, if_false, List.mem_cons] at he
+      rcases he with he | he
+      · subst he
+        exact Or.inl ⟨(k0, vs), List.mem_cons_self, rfl, hx⟩
+      · rcases ih he with ⟨e1, he1, h1, h2⟩ | hr
+        · exact Or.inl ⟨e1, List.mem_cons_of_mem _ he1, h1, h2⟩
+        · exact Or.inr hr
+
+theorem group_sound {ι} (f : ι → κ) (g : ι → α) (es : List ι) : ∀ (t0 : List (κ × List α)) (e : κ × List α),
+    e ∈ es.foldl (fun t a => appendAt t (f a) (g a)) t0 → ∀ x ∈ e.2,
+      (∃ e0 ∈ t0, e0.1 = e.1 ∧ x ∈ e0.2) ∨ ∃ a ∈ es, f a = e.1 ∧ g a = x := by
+  induction es with
+  | nil => intro t0 e he x hx; exact Or.inl ⟨e, he, rfl, hx⟩
+  | cons a rest ih =>
+    intro t0 e he x hx
+    simp only [List.foldl_cons] at he
+    rcases ih _ e he x hx with ⟨e0, he0, h1, h2⟩ | ⟨b, hb, h1, h2⟩
+    · rcases mem_appendAt_val t0 (f a) (g a) e0 he0 x h2 with ⟨e1, he1, h3, h4⟩ | ⟨h3, h4⟩
+      · exact Or.inl ⟨e1, he1, h3.trans h1, h4⟩
+      · exact Or.inr ⟨a, List.mem_cons_self, (h3.symm.trans h1), h4.symm⟩
+    · exact Or.inr ⟨b, List.mem_cons_of_mem _ hb, h1, h2⟩
+
+end groupsound
+
+theorem eq_of_key_eq (atoms : List Atom) (hnd : (atoms.map (·.key)).Nodup) (a b : Atom) (ha : a ∈ atoms)
+    (hb : b ∈ atoms) (h : a.key = b.key) : a = b := by
+  induction atoms with
+  | nil => simp at ha
+  | cons x xs ih =>
+    simp only [List.map_cons, List.nodup_cons] at hnd
+    rcases List.mem_cons.mp ha with rfl | ha' <;> rcases List.mem_cons.mp hb with rfl | hb'
+    · rfl
+    · exact absurd (List.mem_map_of_mem (f := (·.key)) hb') (h ▸ hnd.1)
+    · exact absurd (List.mem_map_of_mem (f := (·.key)) ha') (h ▸ hnd.1)
+    · exact ih hnd.2 ha' hb'
+
+/-- the (resid, resname) an atom is grouped by after the renaming step -/
+def newKey (mapping : List (Nat × String)) (mx : Int) (a : Atom) : Int × String :=
+  match lookup mapping a.key with
+  | some n => (a.resid + mx, n)
+  | none => (a.resid, a.resname)
+
+theorem relabel_eq (atoms : List Atom) (mapping : List (Nat × String)) (mx : Int) :
+    relabel atoms mapping mx = atoms.map fun a =>
+      ({ a with resid := (newKey mapping mx a).1, resname := (newKey mapping mx a).2 } : Atom) := by
+  unfold relabel
+  apply List.map_congr_left
+  intro a _
+  unfold newKey
+  cases lookup mapping a.key <;> rfl
+
+/-- every new residue is called as asked and holds exactly atoms that agree on (old resid, new name): the
+new residues refine the old ones -/
+theorem split_refines (atoms : List Atom) (mx : Int) (sds : List SplitDef) (r : SplitResult)
+    (h : splitResidue atoms mx sds = .ok r) (hkeys : (atoms.map (·.key)).Nodup)
+    (hres : ∀ a ∈ atoms, 1 ≤ a.resid ∧ a.resid ≤ mx) :
+    ∃ mapping, splitMapping atoms sds = .ok mapping ∧
+      ∀ res ∈ r.residues, ∀ x ∈ res.2.2, ∃ a ∈ atoms, a.key = x ∧
+        res.2.1 = (match lookup mapping a.key with | some n => n | none => a.resname) ∧
+        ∀ y ∈ res.2.2, ∀ b ∈ atoms, b.key = y →
+          b.resid = a.resid ∧ (lookup mapping b.key).isSome = (lookup mapping a.key).isSome := by
+  unfold splitResidue at h
+  obtain ⟨mapping, hmap, h2⟩ := bind_ok _ _ _ h
+  simp only [pure, Except.pure, Except.ok.injEq] at h2
+  subst h2
+  refine ⟨mapping, hmap, ?_⟩
+  intro res hres_mem x hx
+  simp only [List.mem_map] at hres_mem
+  obtain ⟨⟨g, idx⟩, hg, rfl⟩ := hres_mem
+  have hgmem : g ∈ groupAtoms (relabel atoms mapping mx) := by
+    have := List.mem_zipIdx hg
+    rw [this.2.2]; exact List.getElem_mem _
+  simp only [] at hx ⊢
+  have key_of : ∀ z ∈ g.2, ∃ c ∈ atoms, c.key = z ∧ newKey mapping mx c = g.1 := by
+    intro z hz
+    unfold groupAtoms at hgmem
+    rcases group_sound (fun a : Atom => (a.resid, a.resname)) (·.key) _ [] g hgmem z hz with ⟨e0, he0, _⟩ | ⟨a', ha', h1, h2⟩
+    · simp at he0
+    · rw [relabel_eq] at ha'
+      simp only [List.mem_map] at ha'
+      obtain ⟨c, hc, rfl⟩ := ha'
+      exact ⟨c, hc, h2, h1⟩
+  obtain ⟨a, ha, hax, hak⟩ := key_of x hx
+  refine ⟨a, ha, hax, ?_, ?_⟩
+  · unfold newKey at hak
+    cases hl : lookup mapping a.key with
+    | none => simp only [hl] at hak; rw [← hak]
+    | some n => simp only [hl] at hak; rw [← hak]
+  · intro y hy b hb hby
+    obtain ⟨c, hc, hcy, hck⟩ := key_of y hy
+    have : c = b := eq_of_key_eq atoms hkeys c b hc hb (hcy.trans hby.symm)
+    subst this
+    have hab : newKey mapping mx c = newKey mapping mx a := hck.trans hak.symm
+    unfold newKey at hab
+    have ra := hres a ha
+    have rc := hres c hc
+    cases hla : lookup mapping a.key <;> cases hlc : lookup mapping c.key <;>
+      simp only [hla, hlc, Prod.mk.injEq] at hab
+    · exact ⟨hab.1, rfl⟩
+    · exfalso; omega
+    · exfalso; omega
+    · exact ⟨by omega, rfl⟩
+
+section groupcomplete
+variable {κ α : Type} [DecidableEq κ]
+
+theorem keys_appendAt (t : List (κ × List α)) (k : κ) (v : α) :
+    (appendAt t k v).map (·.1) = if k ∈ t.map (·.1) then t.map (·.1) else t.map (·.1) ++ [k] := by
+  induction t with
+  | nil => simp [appendAt]
+  | cons e rest ih =>
+    obtain ⟨k0, vs⟩ := e
+    by_cases h : k0 = k
+    · subst h; simp [appendAt]
+    · have hne : ¬ k = k0 := fun e => h e.symm
+      simp only [appendAt, h, if_false, List.map_cons, ih, List.mem_cons, hne, false_or]
+      by_cases hm : k ∈ rest.map (·.1) <;> simp [hm]
+
+theorem nodup_keys_appendAt (t : List (κ × List α)) (k : κ) (v : α) (h : (t.map (·.1)).Nodup) :
+    ((appendAt t k v).map (·.1)).Nodup := by
+  rw [keys_appendAt]
+  by_cases hm : k ∈ t.map (·.1)
+  · simpa [hm] using h
+  · simp only [hm, if_false]
+    rw [List.nodup_append]
+    exact ⟨h, by simp, by
+      intro a ha b hb
+      simp only [List.mem_singleton] at hb
+      subst hb
+      exact fun e => hm (e ▸ ha)⟩
+
+theorem nodup_keys_fold {ι} (f : ι → κ) (g : ι → α) (es : List ι) : ∀ t0 : List (κ × List α),
+    (t0.map (·.1)).Nodup → ((es.foldl (fun t a => appendAt t (f a) (g a)) t0).map (·.1)).Nodup := by
+  induction es with
+  | nil => intro t0 h; exact h
+  | cons a rest ih => intro t0 h; exact ih _ (nodup_keys_appendAt t0 _ _ h)
+
+theorem appendAt_keeps (t : List (κ × List α)) (k : κ) (v : α) (k' : κ) (x : α)
+    (h : ∃ e ∈ t, e.1 = k' ∧ x ∈ e.2) : ∃ e ∈ appendAt t k v, e.1 = k' ∧ x ∈ e.2 := by
+  induction t with
+  | nil => obtain ⟨e, he, _⟩ := h; simp at he
+  | cons e0 rest ih =>
+    obtain ⟨k0, vs⟩ := e0
+    obtain ⟨e, he, h1, h2⟩ := h
+    by_cases hk : k0 = k
+    · simp only [appendAt, hk, if_true]
+      rcases List.mem_cons.mp he with rfl | he
+      · exact ⟨(k, vs ++ [v]), List.mem_cons_self, hk ▸ h1, List.mem_append_left _ h2⟩
+      · exact ⟨e, List.mem_cons_of_mem _ he, h1, h2⟩
+    · simp only [appendAt, hk, if_false]
+      rcases List.mem_cons.mp he with rfl | he
+      · exact ⟨(k0, vs), List.mem_cons_self, h1, h2⟩
+      · obtain ⟨e', he', h3, h4⟩ := ih ⟨e, he, h1, h2⟩
+        exact ⟨e', List.mem_cons_of_mem _ he', h3, h4⟩
+
+theorem appendAt_adds (t : List (κ × List α)) (k : κ) (v : α) : ∃ e ∈ appendAt t k v, e.1 = k ∧ v ∈ e.2 := by
+  induction t with
+  | nil => exact ⟨(k, [v]), by simp [appendAt], rfl, by simp⟩
+  | cons e0 rest ih =>
+    obtain ⟨k0, vs⟩ := e0
+    by_cases hk : k0 = k
+    · exact ⟨(k0, vs ++ [v]), by simp [appendAt, hk], hk, by simp⟩
+    · obtain ⟨e, he, h1, h2⟩ := ih
+      exact ⟨e, by simp [appendAt, hk, he], h1, h2⟩
+
+theorem group_complete {ι} (f : ι → κ) (g : ι → α) (es : List ι) : ∀ t0 : List (κ × List α),
+    (∀ k' x, (∃ e ∈ t0, e.1 = k' ∧ x ∈ e.2) →
+      ∃ e ∈ es.foldl (fun t a => appendAt t (f a) (g a)) t0, e.1 = k' ∧ x ∈ e.2) ∧
+    ∀ a ∈ es, ∃ e ∈ es.foldl (fun t a => appendAt t (f a) (g a)) t0, e.1 = f a ∧ g a ∈ e.2 := by
+  induction es with
+  | nil => intro t0; exact ⟨fun _ _ h => h, fun a ha => by simp at ha⟩
+  | cons b rest ih =>
+    intro t0
+    obtain ⟨keep, adds⟩ := ih (appendAt t0 (f b) (g b))
+    simp only [List.foldl_cons]
+    refine ⟨fun k' x h => keep k' x (appendAt_keeps t0 _ _ k' x h), ?_⟩
+    intro a ha
+    rcases List.mem_cons.mp ha with rfl | ha
+    · exact keep _ _ (appendAt_adds t0 _ _)
+    · exact adds a ha
+
+end groupcomplete
+
+theorem entry_eq_of_key {κ α} (t : List (κ × α)) (h : (t.map (·.1)).Nodup) (e1 e2 : κ × α)
+    (h1 : e1 ∈ t) (h2 : e2 ∈ t) (hk : e1.1 = e2.1) : e1 = e2 := by
+  induction t with
+  | nil => simp at h1
+  | cons x xs ih =>
+    simp only [List.map_cons, List.nodup_cons] at h
+    rcases List.mem_cons.mp h1 with rfl | h1' <;> rcases List.mem_cons.mp h2 with rfl | h2'
+    · rfl
+    · exact absurd (List.mem_map_of_mem (f := (·.1)) h2') (hk ▸ h.1)
+    · exact absurd (List.mem_map_of_mem (f := (·.1)) h1') (hk ▸ h.1)
+    · exact ih h.2 h1' h2'
+
+/-- atoms that agree on (old resid, new name) end up in one and the same new residue -/
+theorem split_groups_together (atoms : List Atom) (mx : Int) (sds : List SplitDef) (r : SplitResult)
+    (mapping : List (Nat × String)) (hmap : splitMapping atoms sds = .ok mapping)
+    (h : splitResidue atoms mx sds = .ok r) (a b : Atom) (ha : a ∈ atoms) (hb : b ∈ atoms)
+    (hk : newKey mapping mx a = newKey mapping mx b) :
+    ∃ res ∈ r.residues, a.key ∈ res.2.2 ∧ b.key ∈ res.2.2 := by
+  unfold splitResidue at h
+  rw [hmap] at h
+  simp only [bind, Except.bind, pure, Except.pure, Except.ok.injEq] at h
+  subst h
+  simp only []
+  have hrel : ∀ c ∈ atoms, ∃ e ∈ groupAtoms (relabel atoms mapping mx), e.1 = newKey mapping mx c ∧ c.key ∈ e.2 := by
+    intro c hc
+    unfold groupAtoms
+    have hc' : ({ c with resid := (newKey mapping mx c).1, resname := (newKey mapping mx c).2 } : Atom) ∈
+        relabel atoms mapping mx := by
+      rw [relabel_eq]; exact List.mem_map_of_mem hc
+    obtain ⟨e, he, h1, h2⟩ := (group_complete (fun a : Atom => (a.resid, a.resname)) (·.key)
+      (relabel atoms mapping mx) []).2 _ hc'
+    exact ⟨e, he, h1, h2⟩
+  obtain ⟨ea, hea, ka, xa⟩ := hrel a ha
+  obtain ⟨eb, heb, kb, xb⟩ := hrel b hb
+  have hnd : ((groupAtoms (relabel atoms mapping mx)).map (·.1)).Nodup := by
+    unfold groupAtoms
+    exact nodup_keys_fold _ _ _ [] (by simp)
+  have : ea = eb := entry_eq_of_key _ hnd ea eb hea heb (by rw [ka, kb, hk])
+  subst this
+  obtain ⟨i, hi, hget⟩ := List.getElem_of_mem hea
+  refine ⟨(i, ea.1.2, ea.2), ?_, xa, xb⟩
+  simp only [List.mem_map]
+  refine ⟨(ea, i), ?_, rfl⟩
+  rw [List.mem_zipIdx_iff_getElem?]
+  simp [hget, hi]
+
+/-! ### E''. one split definition: the mapping is what the definition asks for -/
+
+theorem lookup_fold_setAt_const (hit : List Atom) (v : String) : ∀ (t0 : List (Nat × String)) (k : Nat),
+    lookup (hit.foldl (fun t c => setAt t c.key v) t0) k =
+      if k ∈ hit.map (·.key) then some v else lookup t0 k := by
+  induction hit with
+  | nil => intro t0 k; simp
+  | cons c rest ih =>
+    intro t0 k
+    simp only [List.foldl_cons, ih, lookup_setAt, List.map_cons, List.mem_cons]
+    by_cases h1 : k ∈ rest.map (·.key)
+    · simp [h1]
+    · by_cases h2 : c.key = k
+      · simp [h1, h2]
+      · have : ¬ k = c.key := fun e => h2 e.symm
+        simp [h1, h2, this]
+
+theorem key_mem_filter (atoms : List Atom) (hnd : (atoms.map (·.key)).Nodup) (a : Atom) (ha : a ∈ atoms)
+    (P : Atom → Bool) : a.key ∈ (atoms.filter P).map (·.key) ↔ P a = true := by
+  constructor
+  · intro h
+    simp only [List.mem_map, List.mem_filter] at h
+    obtain ⟨c, ⟨hc, hp⟩, hk⟩ := h
+    have : c = a := eq_of_key_eq atoms hnd c a hc ha hk
+    subst this; exact hp
+  · intro hp
+    exact List.mem_map_of_mem (List.mem_filter.mpr ⟨ha, hp⟩)
+
+/-- the pure effect of one step of the loop on the mapping -/
+def mapPure (atoms : List Atom) (sd : SplitDef) (t : List (Nat × String)) (pn : String × String) : List (Nat × String) :=
+  (atoms.filter (fun a => a.resname = sd.resname ∧ a.atomname = pn.2)).foldl (fun t a => setAt t a.key pn.1) t
+
+theorem mapStep_proj (atoms : List Atom) (sd : SplitDef) (acc acc' : List (Nat × String) × List String)
+    (pn : String × String) (h : mapStep atoms sd acc pn = .ok acc') : acc'.1 = mapPure atoms sd acc.1 pn := by
+  unfold mapStep at h
+  split at h
+  · simp at h
+  · simp only [Except.ok.injEq] at h; subst h; rfl
+
+theorem lookup_mapPure_fold (atoms : List Atom) (sd : SplitDef) (hnd : (atoms.map (·.key)).Nodup) (a : Atom)
+    (ha : a ∈ atoms) (pns : List (String × String)) (hpn : (pns.map (·.2)).Nodup) :
+    ∀ t0 : List (Nat × String), lookup (pns.foldl (mapPure atoms sd) t0) a.key =
+      if a.resname = sd.resname then
+        ((pns.find? (fun pn => pn.2 = a.atomname)).map (·.1)).or (lookup t0 a.key)
+      else lookup t0 a.key := by
+  induction pns with
+  | nil => intro t0; by_cases h : a.resname = sd.resname <;> simp [h]
+  | cons pn rest ih =>
+    intro t0
+    simp only [List.map_cons, List.nodup_cons] at hpn
+    simp only [List.foldl_cons]
+    rw [ih hpn.2]
+    unfold mapPure
+    rw [lookup_fold_setAt_const]
+    have hmem := key_mem_filter atoms hnd a ha (fun c => decide (c.resname = sd.resname ∧ c.atomname = pn.2))
+    by_cases hr : a.resname = sd.resname
+    · by_cases hn : a.atomname = pn.2
+      · have hin : a.key ∈ (atoms.filter (fun c => decide (c.resname = sd.resname ∧ c.atomname = pn.2))).map (·.key) :=
+          hmem.mpr (by simp [hr, hn])
+        have hno : rest.find? (fun q => decide (q.2 = a.atomname)) = none := by
+          rw [List.find?_eq_none]
+          intro q hq
+          simp only [decide_eq_true_eq]
+          intro e
+          exact hpn.1 (List.mem_map.mpr ⟨q, hq, by rw [e, hn]⟩)
+        rw [if_pos hin]
+        rw [hn] at hno
+        simp [hr, hno, hn, List.find?_cons]
+      · have hout : a.key ∉ (atoms.filter (fun c => decide (c.resname = sd.resname ∧ c.atomname = pn.2))).map (·.key) :=
+          fun h => by have := hmem.mp h; simp [hn] at this
+        have : ¬ pn.2 = a.atomname := fun e => hn e.symm
+        rw [if_neg hout]
+        simp [hr, this, List.find?_cons]
+    · have hout : a.key ∉ (atoms.filter (fun c => decide (c.resname = sd.resname ∧ c.atomname = pn.2))).map (·.key) :=
+        fun h => by have := hmem.mp h; simp [hr] at this
+      rw [if_neg hout]
+      simp [hr]
+
+theorem setAt_keys_nodup {κ α : Type} [DecidableEq κ] (t : List (κ × α)) (k : κ) (v : α) (h : (t.map (·.1)).Nodup) :
+    ((setAt t k v).map (·.1)).Nodup := by
+  have hk : (setAt t k v).map (·.1) = if k ∈ t.map (·.1) then t.map (·.1) else t.map (·.1) ++ [k] := by
+    clear h
+    induction t with
+    | nil => simp [setAt]
+    | cons e rest ih =>
+      obtain ⟨k0, v0⟩ := e
+      by_cases h0 : k0 = k
+      · subst h0; simp [setAt]
+      · have hne : ¬ k = k0 := fun e => h0 e.symm
+        simp only [setAt, h0, if_false, List.map_cons, ih, List.mem_cons, hne, false_or]
+        by_cases hm : k ∈ rest.map (·.1) <;> simp [hm]
+  rw [hk]
+  by_cases hm : k ∈ t.map (·.1)
+  · simpa [hm] using h
+  · simp only [hm, if_false]
+    rw [List.nodup_append]
+    exact ⟨h, by simp, by
+      intro a ha b hb
+      simp only [List.mem_singleton] at hb
+      subst hb
+      exact fun e => hm (e ▸ ha)⟩
+
+theorem lookup_refold {κ α : Type} [DecidableEq κ] (m : List (κ × α)) (k : κ) :
+    lookup (m.foldl (fun t kv => setAt t kv.1 kv.2) []) k =
+      (((m.filter (fun e => decide (e.1 = k))).map (·.2)).getLast?) := by
+  rw [lookup_fold_setAt]; simp [lookup]
+
+theorem lookup_of_nodup {κ α : Type} [DecidableEq κ] (m : List (κ × α)) (h : (m.map (·.1)).Nodup) (k : κ) :
+    ((m.filter (fun e => decide (e.1 = k))).map (·.2)).getLast? = lookup m k := by
+  induction m with
+  | nil => rfl
+  | cons e rest ih =>
+    obtain ⟨k0, v⟩ := e
+    simp only [List.map_cons, List.nodup_cons] at h
+    by_cases hk : k0 = k
+    · subst hk
+      have : rest.filter (fun e => decide (e.1 = k0)) = [] := by
+        rw [List.filter_eq_nil_iff]
+        intro e he
+        simp only [decide_eq_true_eq]
+        intro e1
+        exact h.1 (List.mem_map.mpr ⟨e, he, e1⟩)
+      simp [List.filter_cons, this, lookup]
+    · simp [List.filter_cons, hk, lookup, ih h.2]
+
+theorem mapPure_fold_nodup (atoms : List Atom) (sd : SplitDef) (pns : List (String × String)) :
+    ∀ t0 : List (Nat × String), (t0.map (·.1)).Nodup → ((pns.foldl (mapPure atoms sd) t0).map (·.1)).Nodup := by
+  induction pns with
+  | nil => intro t0 h; exact h
+  | cons pn rest ih =>
+    intro t0 h
+    simp only [List.foldl_cons]
+    apply ih
+    unfold mapPure
+    generalize atoms.filter _ = hit
+    induction hit generalizing t0 with
+    | nil => exact h
+    | cons c cs ihc => simp only [List.foldl_cons]; exact ihc _ (setAt_keys_nodup t0 _ _ h)
+
+/-- for ONE accepted split definition, the new name recorded for an atom is the name the definition asks for -/
+theorem single_mapping (atoms : List Atom) (sd : SplitDef) (mapping : List (Nat × String))
+    (h : splitMapping atoms [sd] = .ok mapping) (hnd : (atoms.map (·.key)).Nodup) (a : Atom) (ha : a ∈ atoms) :
+    lookup mapping a.key = askedName sd a := by
+  unfold splitMapping at h
+  simp only [List.foldlM_cons, List.foldlM_nil] at h
+  obtain ⟨r, hr, h2⟩ := bind_ok _ _ _ h
+  obtain ⟨m, hm, h3⟩ := bind_ok _ _ _ hr
+  simp only [pure, Except.pure, Except.ok.injEq] at h2 h3
+  subst h2; subst h3
+  have hnames : (listedNames sd).Nodup := (interpret_ok_iff atoms sd).mp ⟨m, hm⟩
+  rw [interpret_flat] at hm
+  cases hf : (namedParts sd).foldlM (mapStep atoms sd) ([], []) with
+  | error e => rw [hf] at hm; simp [Except.map] at hm
+  | ok st =>
+    rw [hf] at hm
+    simp only [Except.map, Except.ok.injEq] at hm
+    subst hm
+    have hproj := foldlM_proj (mapStep atoms sd) (·.1) (mapPure atoms sd)
+      (fun s x s' hs => mapStep_proj atoms sd s s' x hs) (namedParts sd) ([], []) st hf
+    simp only [] at hproj
+    have hpn : ((namedParts sd).map (·.2)).Nodup := by rw [listedNames_eq]; exact hnames
+    rw [lookup_refold, lookup_of_nodup _ (by rw [hproj]; exact mapPure_fold_nodup atoms sd _ [] (by simp)),
+      hproj, lookup_mapPure_fold atoms sd hnd a ha _ hpn]
+    unfold askedName
+    by_cases hr' : a.resname = sd.resname <;> simp [hr', lookup]
 
 /-! ### fixtures of the non-vacuity examples -/
 
